@@ -5,12 +5,12 @@ import re
 BASE = ["ID", "INT", "STRING", "FLOAT", "BOOL", "NUMBER", "STRICTFLOAT", "BASETYPE"]
 RULES = ["A", "B", "C", "D", "E", "F"]
 ATTRS = ["a", "b", "c", "name", "x"]
-STRS_OK = ["'a'", "'b'", '"kw"', "','", "';'", "'+'", "'\\n'", "'\\\\'", "'\\x41'", "'\\u0041'", "'\\101'",
+STRS_OK = ["'a'", "'b'", '"kw"', "','", "';'", "'+'", "'\\n'", "'\\x41'", "'\\u0041'", "'\\101'",
            "'\\N{BULLET}'", "''", "'it\\'s'", "'\\U00000041'", "'\\q'", "'\\x'", "'begin'", "'end'", "'\\t x'"]
 STRS_BAD = ["'\\N{foo}'", "'\\U99999999'", "'\\xzz'", "'\\uzzzz'", "'\\Uzzzzzzzz'", "'a\\N{no such name}b'",
-            '"\\u12G4"', "'\\U0011FFFF'"]
-RES_OK = ["/a+/", "/[a-z]+/", "/\\d+/", "/\\//", "/x|y/", "/(a)(b)/", "/\\w+\\b/", "/[^;]*/", "//", "/\\s*/", "/a{1,2}/"]
-RES_BAD = ["/(/", "/[a/", "/a{2,1}/", "/*/", "/(?P<x>a)(?P<x>b)/", "/[z-a]/", "/\\N{foo}/", "/a**/", "/(?<=a+)b/", "/)/", "/\\/(/"]
+            '"\\u12G4"', "'\\U0011FFFF'", "'\\\\'"]
+RES_OK = ["/a+/", "/[a-z]+/", "/\\d+/", "/\\//", "/x|y/", "/(a)(b)/", "/\\w+\\b/", "/[^;]*/", "/\\s*/", "/a{1,2}/"]
+RES_BAD = ["/a{99999999999}/", "/\\1/", "/(?i/", "/(/", "/[a/", "/a{2,1}/", "/*/", "/(?P<x>a)(?P<x>b)/", "/[z-a]/", "/\\N{foo}/", "/a**/", "/(?<=a+)b/", "/)/", "/\\/(/"]
 PARAMS_OK = ["skipws", "noskipws", "ws=' '", "ws='\\n\\t '", "ws=''", "split='.'", "split='::'", "skipws='x'"]
 PARAMS_BAD = ["ws", "nows", "split", "nosplit", "split=''", "foo", "nofoo", "ws2=' '", "noskipws='3'", "no", "eolterm"]
 RRELS_OK = ["a", "a.b", "^a", "..a", ".a", "~a", "a*", "(a,b)", "+m:a.b", "+p:^a*.b", "+mp:a", "parent(B).a", "a.~b", "'x'~a",
@@ -246,7 +246,7 @@ def m_bad_modifier(r, g):
 def m_multi_bool(r, g):
     ru = r.choice(g.rules)
     a = r.choice(ATTRS)
-    ru["body"] += " %s=ID %s?='q'" % (a, a)
+    ru["body"] += " %s=ID %s?='q'%s" % (a, a, r.choice(["", "", "[',']", "?", "*"]))
     return g.text(), "multi-bool"
 
 
